@@ -41,7 +41,7 @@ bool remove_cmd(Plan &p, int i)
         std::vector<Op> ops;
         for (auto o : q.ops) {
                 bool keep = true;
-                if (o.kind == OP_TRIG || o.kind == OP_QBUF || o.kind == OP_ROUNDTRIP || o.kind == OP_SETVAR)
+                if (o.kind == OP_TRIG || o.kind == OP_QBUF || o.kind == OP_ROUNDTRIP || o.kind == OP_SETVAR || o.kind == OP_TRIGCB || o.kind == OP_PUMP)
                         keep = remap(o.a);
                 else if (o.kind == OP_FLAG && o.a == 0)
                         keep = remap(o.b);
